@@ -103,6 +103,11 @@ def pool_specs(classes=(0, 1, 2), missing_label=np.nan):
         samplewise=True, arbitrary_idx=True)
     add("ProbabilisticAL", lambda s: P.ProbabilisticAL(missing_label=ml, random_state=s), clf_kw(_pwc),
         samplewise=True, arbitrary_idx=True)
+    # utility weights handed over as integers (counts): the utilities stay floating point with NaN at non-candidates (seed R10G03)
+    add("ProbabilisticAL[int-utility-weights]", lambda s: P.ProbabilisticAL(missing_label=ml, random_state=s),
+        lambda d, s: {"clf": _pwc(C, s), "utility_weight": 1 + (np.abs(np.round(np.asarray(d["X"])[:, 0] * 8)).astype(int) % 3)}, rows=False, samplewise=True, arbitrary_idx=True)
+    add("UncertaintySampling[int-utility-weights]", lambda s: P.UncertaintySampling(missing_label=ml, random_state=s),
+        lambda d, s: {"clf": _pwc(C, s), "utility_weight": 1 + (np.abs(np.round(np.asarray(d["X"])[:, 0] * 8)).astype(int) % 3)}, rows=False, samplewise=True, arbitrary_idx=True)
     add("EpistemicUncertaintySampling[pwc]", lambda s: P.EpistemicUncertaintySampling(missing_label=ml, random_state=s),
         lambda d, s: {"clf": _pwc(C[:2], s)}, samplewise=True, arbitrary_idx=True, classes=C[:2])
     add("EpistemicUncertaintySampling[precompute]", lambda s: P.EpistemicUncertaintySampling(precompute=True, missing_label=ml, random_state=s),
